@@ -75,8 +75,7 @@ func init() {
 		`(assert (forall ((t T) (o T) (J (Array Int Int)) (k Int)) (! (=> (and (<= 0 k) (< k (rank t))) (= (select (proj t o J) k) (ite (= (dim t k) (dim o (+ k (- (rank o) (rank t))))) (select J (+ k (- (rank o) (rank t)))) 0))) :pattern ((select (proj t o J) k)))))
 (assert (forall ((t T) (o T) (J (Array Int Int))) (! (=> (and (= (rank t) (rank o)) (forall ((k Int)) (=> (and (<= 0 k) (< k (rank t))) (= (dim t k) (dim o k))))) (= (el t (proj t o J)) (el t J))) :pattern ((proj t o J)))))`, "rank", "dim", "el")
 	// val(J, S, k): the row-major (Horner) value of the digits J[0..k) over the sizes S, on top of the overflow digit J[-1]
-	registerDomain("val", []string{idxSort, idxSort, "Int"}, "Int",
-		`(assert (forall ((J (Array Int Int)) (S (Array Int Int)) (k Int)) (! (= (val J S k) (ite (<= k 0) (select J (- 1)) (+ (* (val J S (- k 1)) (select S (- k 1))) (select J (- k 1))))) :pattern ((val J S k)))))`)
+	registerDomain("val", []string{idxSort, idxSort, "Int"}, "Int", "") // defined by the spec axiom valDef (used only where needed: a recursive definition is a matching loop)
 	// shp(t): the shape of t as an index array; unval(t, p): an index of t at row-major position p (LEX, un-flattening)
 	registerDomain("shp", []string{"T"}, idxSort, `(assert (forall ((t T) (k Int)) (! (= (select (shp t) k) (dim t k)) :pattern ((select (shp t) k)))))`, "dim")
 	registerDomain("unval", []string{"T", "Int"}, idxSort, "")
